@@ -34,19 +34,47 @@ all_same = S.Fold('all_same', z3.BoolSort(), init=lambda env, c1, c2: True,
                   step=lambda env, acc, h, idx, c1, c2: z3.And(acc, c1[h] == c2[h]))
 
 
+def _hash_diffs(diff_t, n):
+    if isinstance(diff_t, (list, tuple)):
+        # CPython reading (replay) and the concrete empty list before the loop
+        return z3.BoolVal(all((x[1] is None or isinstance(x[1], str)) and (x[2] is None or isinstance(x[2], str))
+                              and not (x[1] is None and x[2] is None) for x in diff_t))
+    DT = TupleT(Str, Any, Any)
+    UU = Any.sort()
+
+    def elem_ok(x):
+        a1 = DT.sort().accessor(0, 1)(x)
+        a2 = DT.sort().accessor(0, 2)(x)
+        return z3.And(z3.Or(UU.is_vstr(a1), UU.is_vnone(a1)), z3.Or(UU.is_vstr(a2), UU.is_vnone(a2)),
+                      z3.Not(z3.And(UU.is_vnone(a1), UU.is_vnone(a2))))
+    # "every element of xs ++ [x]" is written as "every element of xs, and x" (the solvers do not split Nth over a
+    # concatenation inside a quantifier on their own; the two readings are equivalent)
+    if z3.is_app(diff_t):
+        k = diff_t.decl().kind()
+        if k == z3.Z3_OP_SEQ_EMPTY:
+            return z3.BoolVal(True)
+        if k == z3.Z3_OP_SEQ_UNIT:
+            return elem_ok(diff_t.arg(0))
+        if k == z3.Z3_OP_SEQ_CONCAT:
+            return z3.And(*[_hash_diffs(diff_t.arg(i), z3.Length(diff_t.arg(i))) for i in range(diff_t.num_args())])
+    j = z3.Int('j!hd')
+    return z3.ForAll([j], z3.Implies(z3.And(j >= 0, j < z3.Length(diff_t)), elem_ok(diff_t[j])))
+
+
 @contract('gemato/verify.py', 'verify_entry_compatibility', props=['C01', 'C03', 'C18'])
 def _(c):
     c.params(e1=PathEntry, e2=PathEntry)
-    c.returns(TupleT(Bool, ListT(Any)))
+    c.returns(TupleT(Bool, ListT(TupleT(Str, Any, Any))))
     c.only_raises()
     c.note('TIMESTAMP entries are excluded by the parameter type; the two call sites skip DIST/TIMESTAMP before calling')
     c.loop(1, header='for h in sorted(hashes)',
-           vars={'diff': ListT(Any), 'h1': None, 'h2': None},
+           vars={'diff': ListT(TupleT(Str, Any, Any)), 'h1': None, 'h2': None},
            inv=[('ret-iff-common-agree',
                  lambda s: s.cur.ret == all_common_agree(s, s.seq, s.i, s.e1.checksums, s.e2.checksums)),
                 ('diff-empty-iff-same',
                  lambda s: all_same(s, s.seq, s.i, s.e1.checksums, s.e2.checksums) == (S.Len(s.cur.diff) == 0)),
-                ('no-diff-implies-ret', lambda s: z3.Implies(S.Len(s.cur.diff) == 0, s.cur.ret))])
+                ('no-diff-implies-ret', lambda s: z3.Implies(S.Len(s.cur.diff) == 0, s.cur.ret)),
+                ('diff-holds-checksum-differences', lambda s: _hash_diffs(s.cur.diff, S.Len(s.cur.diff)))])
 
     def verdict(s):
         t1, t2 = s.e1.tag, s.e2.tag
@@ -84,6 +112,33 @@ def _(c):
         n = len(diff) if isinstance(diff, list) else z3.Length(diff)
         return z3.Implies(z3.Not(ok), n > 0) if not isinstance(n, int) else z3.Implies(z3.Not(ok), z3.BoolVal(n > 0))
     c.ensures('incompatible-has-diff', diffclause)
+
+    def ignores_have_no_diff(s):
+        ok, diff = s.result
+        n = len(diff) if isinstance(diff, list) else z3.Length(diff)
+        both_ign = z3.And(s.e1.tag == STR('IGNORE'), s.e2.tag == STR('IGNORE'))
+        return z3.Implies(both_ign, n == 0) if not isinstance(n, int) else z3.Implies(both_ign, z3.BoolVal(n == 0))
+    c.ensures('two-ignore-entries-have-no-differences', ignores_have_no_diff)
+
+    # the differences reported for *compatible* entries are checksum differences (name, digest-or-None, digest-or-None) with
+    # at least one digest present: what get_file_entry_dict relies on when it merges the hash sets
+    DT = TupleT(Str, Any, Any)
+    UU = Any.sort()
+
+    def hash_diffs(diff_t, n):
+        j = z3.Int('j!hd')
+        a1 = DT.sort().accessor(0, 1)(diff_t[j])
+        a2 = DT.sort().accessor(0, 2)(diff_t[j])
+        return z3.ForAll([j], z3.Implies(z3.And(j >= 0, j < n),
+                                         z3.And(z3.Or(UU.is_vstr(a1), UU.is_vnone(a1)), z3.Or(UU.is_vstr(a2), UU.is_vnone(a2)),
+                                                z3.Not(z3.And(UU.is_vnone(a1), UU.is_vnone(a2))))))
+
+    def compatible_diffs_are_hash_diffs(s):
+        ok, diff = s.result
+        if isinstance(diff, list):
+            return z3.BoolVal(True) if not diff else z3.Not(ok)
+        return z3.Implies(ok, _hash_diffs(diff, z3.Length(diff)))
+    c.ensures('differences-of-compatible-entries-are-checksum-differences', compatible_diffs_are_hash_diffs)
 
 
 # --------------------------------------------------------------------------
